@@ -413,3 +413,10 @@ pub mod sync {
     }
 }
 
+
+/// Only the trait names: `tower::make` (feature "make", enabled by the
+/// reconnect crate) uses them as bounds; nothing implements or calls them here.
+pub mod io {
+    pub trait AsyncRead {}
+    pub trait AsyncWrite {}
+}
